@@ -127,15 +127,14 @@ fn unzip_batch(batch: &RecordBatch, schema: &Schema) -> RecordBatch {
     // The schema of the combined batches will be:
     // target_data_keys, target_data_non_keys, target_data_row_id, source_data_keys, source_data_non_keys
     // The keys and non_keys on both sides will be equal
-    let num_fields = batch.num_columns();
-    debug_assert_eq!(num_fields % 2, 1);
-    let half_num_fields = num_fields / 2;
-    let row_id_col = num_fields - 1;
+    // (a partial-schema merge carries a trailing row address column as well)
+    let half_num_fields = schema.fields.len();
+    debug_assert!(batch.num_columns() > 2 * half_num_fields);
 
     let source_arrays = batch.columns()[0..half_num_fields].to_vec();
     let source = StructArray::new(schema.fields.clone(), source_arrays, None);
 
-    let target_arrays = batch.columns()[half_num_fields..row_id_col].to_vec();
+    let target_arrays = batch.columns()[half_num_fields..2 * half_num_fields].to_vec();
     let target = StructArray::new(schema.fields.clone(), target_arrays, None);
 
     let combined_schema = combined_schema(schema);
